@@ -187,6 +187,21 @@ proof fn lemma_seek_post(s: Seq<Ent>, t: u64, keep: bool, k: Seq<u8>, c0: int, c
     }
 }
 
+// ---------------------------------------------------------------- backward scan
+// every entry of key k before index c is newer than t
+spec fn older_newer(s: Seq<Ent>, t: u64, c: int, k: Seq<u8>) -> bool {
+    forall|i: int| 0 <= i < c && i < s.len() && #[trigger] s[i].key == k ==> s[i].ts > t
+}
+proof fn lemma_group_ts(s: Seq<Ent>, i: int, j: int)
+    requires sorted(s), 0 <= i < j < s.len(), s[i].key == s[j].key
+    ensures s[i].ts > s[j].ts
+{
+    assert(kt_lt(s[i].key, s[i].ts, s[j].key, s[j].ts));
+}
+//@ extract sst/src/lib.rs | fn logic_error_prev_not_positioned
+//@ external-body
+//@ end
+
 //@ extract sst/src/pruning_cursor.rs | struct PruningCursor
 //@ end
 
@@ -285,10 +300,147 @@ impl<C: Cursor> Cursor for PruningCursor<C> {
 //@ >>
 //@ end
 
-// prev: the backward scan (three nested loops) is NOT yet proved in Verus; its contract is assumed here
-// and checked, bounded, by the Kani unit cur_pruning (pruning_prev).
 //@ extract sst/src/pruning_cursor.rs | impl Cursor for PruningCursor<C> :: fn prev
-//@ external-body
+//@ rewrite-re X9 `self\.skip_key\.as_ref\(\)\.unwrap\(\)\s*!=\s*kr\.key` => `!bytes_eq(self.skip_key.as_ref().unwrap().as_slice(), kr.key)`
+//@ rewrite-re X9 `kr\.key\s*!=\s*target_key` => `!bytes_eq(kr.key, target_key.as_slice())`
+//@ rewrite-re X9 `kr\.key\s*==\s*target_key` => `bytes_eq(kr.key, target_key.as_slice())`
+//@ bodystart <<
+        let ghost c0 = self.cursor.pos();
+        proof { self.cursor.lemma_cursor_laws(); old(self).lemma_cursor_laws(); }
+//@ >>
+// L0: the outer loop.  [pos, c0) holds no visible entry; a set skip key is the key of the entry under the
+// child, and every earlier version of that key is newer than t.
+//@ loop 0 <<
+            invariant
+                    self.cursor.wf(), self.cursor.wf_base(), self.cursor.ents() == old(self).cursor.ents(),
+                    self.timestamp == old(self).timestamp, self.retain_tombstones == old(self).retain_tombstones,
+                    sorted(self.s()), old(self).wf(), c0 == old(self).cursor.pos(),
+                -1 <= self.cursor.pos() <= c0 <= self.n(),
+                forall|j: int| self.cursor.pos() <= j < c0 && 0 <= j ==> !vis(self.s(), self.timestamp, self.retain_tombstones, j),
+                self.skip_key is Some ==> 0 <= self.cursor.pos() < self.n() && self.s()[self.cursor.pos()].key == self.skip_key->Some_0@
+                    && older_newer(self.s(), self.timestamp, self.cursor.pos(), self.skip_key->Some_0@),
+                self.skip_key is None ==> self.cursor.pos() == c0 && (c0 == self.n() || c0 == -1),
+            decreases self.cursor.pos() + 1,
+//@ >>
+//@ startloop 0 <<
+            let ghost ch = self.cursor.pos();
+            let ghost skh = skv(self.skip_key);
+//@ >>
+//@ afterall `self.cursor.prev()?;` <<
+            proof { self.cursor.lemma_cursor_laws(); }
+//@ >>
+//@ afterall `self.cursor.next()?;` <<
+            proof { self.cursor.lemma_cursor_laws(); }
+//@ >>
+// L1: walk back over the group of the skip key (all newer than t); stop on the last entry of the previous group
+//@ loop 1 <<
+                invariant
+                    self.cursor.wf(), self.cursor.wf_base(), self.cursor.ents() == old(self).cursor.ents(),
+                    self.timestamp == old(self).timestamp, self.retain_tombstones == old(self).retain_tombstones,
+                    sorted(self.s()), old(self).wf(), c0 == old(self).cursor.pos(),
+                    -1 <= self.cursor.pos() <= ch <= c0 <= self.n(), ch >= 0 ==> self.cursor.pos() < ch,
+                    forall|j: int| self.cursor.pos() < j < c0 && 0 <= j ==> !vis(self.s(), self.timestamp, self.retain_tombstones, j),
+                    self.skip_key is Some ==> skv(self.skip_key) == skh && 0 <= ch < self.n() && self.s()[ch].key == skh->Some_0
+                        && older_newer(self.s(), self.timestamp, ch, skh->Some_0)
+                        && (forall|i: int| self.cursor.pos() < i <= ch ==> #[trigger] self.s()[i].key == skh->Some_0),
+                    self.skip_key is None ==> (self.cursor.pos() >= 0 ==> (self.cursor.pos() + 1 == self.n() || self.s()[self.cursor.pos() + 1].key != self.s()[self.cursor.pos()].key)),
+                decreases (if self.skip_key is Some { 1int } else { 0int }), self.cursor.pos() + 1,
+//@ >>
+//@ startloop 1 <<
+                proof { self.cursor.lemma_cursor_laws(); }
+//@ >>
+//@ afterloop 1 <<
+            proof { self.cursor.lemma_cursor_laws(); }
+//@ >>
+// the oldest version of this key is newer than t: the whole group is invisible
+//@ before `continue;` <<
+                proof {
+                    let c = self.cursor.pos();
+                    assert forall|i: int| 0 <= i < c && i < self.s().len() && #[trigger] self.s()[i].key == self.s()[c].key implies self.s()[i].ts > self.timestamp by { lemma_group_ts(self.s(), i, c); }
+                }
+//@ >>
+//@ after `let target_key = kr.key.to_vec();` <<
+            let ghost e = self.cursor.pos();
+            let ghost tk = target_key@;
+//@ >>
+// L2: walk back while the entry is a version <= t of the target key
+//@ loop 2 <<
+                invariant_except_break
+                    0 <= self.cursor.pos() <= e,
+                    forall|i: int| self.cursor.pos() <= i <= e ==> #[trigger] self.s()[i].key == tk && self.s()[i].ts <= self.timestamp,
+                invariant
+                    self.cursor.wf(), self.cursor.wf_base(), self.cursor.ents() == old(self).cursor.ents(),
+                    self.timestamp == old(self).timestamp, self.retain_tombstones == old(self).retain_tombstones,
+                    sorted(self.s()), old(self).wf(), c0 == old(self).cursor.pos(),
+                    0 <= e < self.n(), e < c0, target_key@ == tk, self.skip_key is None,
+                    forall|j: int| e < j < c0 && 0 <= j ==> !vis(self.s(), self.timestamp, self.retain_tombstones, j),
+                ensures
+                    -1 <= self.cursor.pos() < e,
+                    forall|i: int| self.cursor.pos() < i <= e ==> #[trigger] self.s()[i].key == tk && self.s()[i].ts <= self.timestamp,
+                    self.cursor.pos() >= 0 ==> !(self.s()[self.cursor.pos()].key == tk && self.s()[self.cursor.pos()].ts <= self.timestamp),
+                decreases self.cursor.pos() + 1,
+//@ >>
+//@ startloop 2 <<
+                let ghost c2 = self.cursor.pos();
+                assert(0 <= c2 <= e);
+                assert(forall|i: int| c2 <= i <= e ==> #[trigger] self.s()[i].key == tk && self.s()[i].ts <= self.timestamp);
+//@ >>
+//@ afterloop 2 <<
+            let ghost x = self.cursor.pos();
+            proof { self.cursor.lemma_cursor_laws(); }
+//@ >>
+//@ before `while let Some(kr) = self.key() {` <<
+            proof { self.cursor.lemma_cursor_laws(); }
+//@ >>
+// L3: step forward onto the newest version <= t of the target key (at most one step)
+//@ loop 3 <<
+                invariant
+                    self.cursor.wf(), self.cursor.wf_base(), self.cursor.ents() == old(self).cursor.ents(),
+                    self.timestamp == old(self).timestamp, self.retain_tombstones == old(self).retain_tombstones,
+                    sorted(self.s()), old(self).wf(), c0 == old(self).cursor.pos(),
+                    target_key@ == tk, self.skip_key is None, e < c0 <= self.n(),
+                    forall|j: int| e < j < c0 && 0 <= j ==> !vis(self.s(), self.timestamp, self.retain_tombstones, j),
+                    -1 <= x < e < self.n(), x <= self.cursor.pos() <= x + 1, 0 <= self.cursor.pos(),
+                    forall|i: int| x < i <= e ==> #[trigger] self.s()[i].key == tk && self.s()[i].ts <= self.timestamp,
+                    x >= 0 ==> !(self.s()[x].key == tk && self.s()[x].ts <= self.timestamp),
+                    self.cursor.key_spec() == key_at(self.s(), self.cursor.pos()),
+                ensures
+                    self.cursor.wf(), self.cursor.wf_base(), self.cursor.ents() == old(self).cursor.ents(),
+                    self.cursor.pos() == x + 1,
+                decreases x + 1 - self.cursor.pos(),
+//@ >>
+//@ startloop 3 <<
+                proof { self.cursor.lemma_cursor_laws(); }
+//@ >>
+//@ afterloop 3 <<
+            proof { self.cursor.lemma_cursor_laws(); }
+//@ >>
+// the entry under the child is the newest version <= t of its key; the later versions up to e are invisible
+//@ before `if self.value().is_some() || self.retain_tombstones {` <<
+            proof {
+                let s = self.s(); let t = self.timestamp; let keep = self.retain_tombstones; let cs = self.cursor.pos();
+                assert forall|i: int| 0 <= i < cs && i < s.len() && #[trigger] s[i].key == tk implies s[i].ts > t by {
+                    if x >= 0 {
+                        if s[x].key == tk { if i < x { lemma_group_ts(s, i, x); } }
+                        else { lemma_same_key_between(s, i, x, cs); }
+                    }
+                }
+                assert forall|j: int| cs < j <= e implies !vis(s, t, keep, j) by { assert(s[cs].key == s[j].key && s[cs].ts <= t); }
+            }
+//@ >>
+//@ beforeall `return Ok(());` <<
+                    proof {
+                        let s = self.s(); let t = self.timestamp; let keep = self.retain_tombstones; let c = self.cursor.pos(); let n = self.n();
+                        self.cursor.lemma_cursor_laws(); old(self).lemma_cursor_laws();
+                        if c == -1 { if c0 >= 0 { lemma_rank_flat(s, t, keep, 0, c0); } }
+                        else {
+                            lemma_rank_flat(s, t, keep, c + 1, c0);
+                            assert(vp(s, t, keep, c + 1) == vp(s, t, keep, c).push(s[c]));
+                            lemma_rank_mono(s, t, keep, c + 1, n);
+                            lemma_vp_at_rank(s, t, keep, n, c);
+                        }
+                    }
+//@ >>
 //@ end
 
 //@ extract sst/src/pruning_cursor.rs | impl Cursor for PruningCursor<C> :: fn next
@@ -355,6 +507,6 @@ impl<C: Cursor> Cursor for PruningCursor<C> {
 //@ end
 }
 
-//@ min-verified 15
+//@ min-verified 30
 } // verus!
 fn main() {}
